@@ -720,7 +720,7 @@ func runC09(c *core.Ctx) int {
 	run.Assume("the marker check `name \"zzblkNNq\" {}` stands for \"the checks of the block\": all checks of a block share the block's match/ignore lists (config.newParsedRule), so one check per block observes the block's selection")
 	run.Assume("don't-care (not compared): removed rules (no configurable check runs on them, nothing to observe); an ignore{} without state under `ci` on an unmodified rule (the documentation can be read both ways)")
 	run.Assume("label conditions are evaluated on the rule's labels overlaid on the group's labels (Prometheus semantics; property statement), not on the rule's own labels only as one sentence of the documentation says for recording rules")
-	return run.Finish("exploration (bounded-exhaustive over condition-kind subsets)",
+	return run.Finish("exploration",
 		"configurations: the documentation's examples; for every subset of the nine condition kinds (path, name, kind, label, annotation, for, keep_firing_for, command, state) one block with a single match{} and one block with a single ignore{} using exactly that subset (values drawn so that they hold for a chosen target rule/command/state with probability ~0.85, 12% of regexps with a top-level `|`); random configurations of 1-4 blocks with 0-2 match and 0-2 ignore sub-blocks. Each configuration is loaded with the real config.Load and every block is decided for 24 rules x 3 commands x 5 states through the real Config.GetChecksForEntry; a sample is replayed through the pint binary (lint, ci in a scratch git repository, watch) using the H1 dispatch dump. Oracle: independent reference evaluator of the documented semantics. Evaluations = compared (block, rule, command, state) decisions. Non-trivial = block for which the vocabulary x commands x states contains both a decision 'applies' and a decision 'does not apply'; distinct by the block's condition-subset signature.",
 		core.Floors{MinEvaluations: int64(c.N(300000, 8000000)), MinNontrivial: c.N(300, 600), MaxInconclusiveFrac: 0.001})
 }
